@@ -633,7 +633,7 @@ func MutateOp(r *Rand, v *spec.Version, s string, op int) string {
 		}
 		return join(hdr, out)
 	case "whitespace":
-		ws := []string{" ", "\t", "\n", "\r", "\x00", " "}[r.Intn(6)]
+		ws := []string{" ", "\t", "\n", "\r", "\x00", "\u00a0", "\r\n", "\ufeff", "\u200b", "\v", "\f", "  "}[r.Intn(12)]
 		switch r.Intn(3) {
 		case 0:
 			return ws + s
